@@ -1,5 +1,6 @@
 import Ldlm.Proofs.SessionEnd
 import Ldlm.Proofs.CoreMain
+import Ldlm.Proofs.CoreSessionEnd
 /-!
 C06 — Session end releases exactly that session's holds, whatever is in flight.
 
@@ -20,13 +21,17 @@ one step per call into a manager, EVERY schedule.  `DestroySession` is pinned to
 * `noclear_keeps`   — with no-clear-on-disconnect a session end (M2's `disconnect`, for EVERY state):
   every lease timer is kept as it is and every lock keeps its size and its holders (only blocked
   calls of the ended session leave the queues): the holds stay until unlocked by key or lease expiry.
+* `session_end_releases_all`, `session_end_keeps_others` — the sequential server model M2, EVERY
+  reachable state, clearing on: after `disconnect sid` no hold the session had is in the lock table any
+  more (neither as a key nor queued), and every hold of every other session is still booked and still
+  held — "exactly that session's holds" when nothing else is in flight.
 * K2 (known finding, stays): `late_grant_leaks` — a grant between G1 and G2 when D1 runs re-creates
   the deleted entry and the hold is never released; `timer_for_dead_hold` — a grant between G2 and
   G3 when the destroy thread handles the hold arms a lease timer for a hold that is already gone.
-Frame ("holds of other sessions are untouched"): every step of this model reads and writes only the
-state of this one hold; other holds have their own, independent copies (key uniqueness, C07's
-timer-key injectivity).  On the code this is checked by the conc stream (another session's hold is
-part of every template).
+Frame ("holds of other sessions are untouched"): in M3b every step reads and writes only the state of
+this one hold; other holds have their own, independent copies (key uniqueness, C07's timer-key
+injectivity); in M2 it is the theorem `session_end_keeps_others`.  On the code this is checked by the
+conc stream (another session's hold is part of every template) and the sequential session-end monitor.
 -/
 namespace Ldlm.Props.C06
 open Ldlm.SessionEnd
@@ -166,5 +171,53 @@ theorem noclear_keeps (ho : o.Lawful) (hnc : c.noClear = true) (s : Core.St M) (
     exact ha
 
 end noclear
+
+/-! ### clearing on: exactly that session's holds (sequential server model M2) -/
+
+section clear
+open Ldlm.Core
+variable {M : Type} {o : MapOps M} {c : Cfg}
+
+theorem session_end_releases_all (ho : o.Lawful) {s : Core.St M} (h : InvS o c s) (hnc : c.noClear = false)
+    (sid : Sid) (x : Hold) (hb : booked s sid x) :
+    ¬ held o (Core.step o c s (.disconnect sid)).1 x.name x.key :=
+  disconnect_releases_all ho h.1 hnc sid x hb
+
+theorem session_end_keeps_others (ho : o.Lawful) (hinj : KeysInjective c) {s : Core.St M} (h : InvS o c s)
+    (sid sid' : Sid) (hne : sid' ≠ sid) (y : Hold) (hb : booked s sid' y) :
+    booked (Core.step o c s (.disconnect sid)).1 sid' y ∧ held o (Core.step o c s (.disconnect sid)).1 y.name y.key := by
+  have hb' := disconnect_keeps_booked (c := c) ho s sid sid' hne y hb
+  refine ⟨hb', ?_⟩
+  have hi := (step_invS ho hinj h (.disconnect sid)).1
+  rcases hi.bh sid' y hb' with ⟨r, hg, hk, _⟩ | hx
+  · exact ⟨r, hg, hk⟩
+  · cases hx
+
+/-- for every reachable state -/
+theorem session_end_exact_reachable (ho : o.Lawful) (hinj : KeysInjective c) (hnc : c.noClear = false) (ops : List Op)
+    (sid : Sid) :
+    (∀ x, booked (Core.run o c ops) sid x → ¬ held o (Core.run o c (ops ++ [.disconnect sid])) x.name x.key) ∧
+    (∀ sid' y, sid' ≠ sid → booked (Core.run o c ops) sid' y →
+      booked (Core.run o c (ops ++ [.disconnect sid])) sid' y ∧ held o (Core.run o c (ops ++ [.disconnect sid])) y.name y.key) := by
+  have hi := run_invS (c := c) ho hinj ops
+  have e : Core.run o c (ops ++ [.disconnect sid]) = (Core.step o c (Core.run o c ops) (.disconnect sid)).1 := by
+    unfold Core.run; rw [List.foldl_append]; rfl
+  rw [e]
+  exact ⟨fun x hb => session_end_releases_all ho hi hnc sid x hb,
+         fun sid' y hne hb => session_end_keeps_others ho hinj hi sid sid' hne y hb⟩
+
+/-! non-vacuity: two sessions with one hold each; the first ends -/
+def cfgC : Cfg := { gcInterval := 0, gcMinIdle := 0, dlt := 600 * sec, noClear := false, hasFile := true,
+                    genKey := fun n => 75 :: natDigits n }
+def sa : Core.Str := [115, 49]
+def sb : Core.Str := [115, 50]
+def histC : List Op := [.connect sa, .connect sb, .tryLock (some sa) [97] none (some 60), .tryLock (some sb) [98] none (some 60)]
+
+example : (Core.run flatOps cfgC histC).sessions = [(sa, [⟨[97], cfgC.genKey 0, 1⟩]), (sb, [⟨[98], cfgC.genKey 1, 1⟩])] := by decide
+example : ((AMap.get (Core.run flatOps cfgC (histC ++ [.disconnect sa])).locks [97]).map (·.keys),
+           (AMap.get (Core.run flatOps cfgC (histC ++ [.disconnect sa])).locks [98]).map (·.keys),
+           (Core.run flatOps cfgC (histC ++ [.disconnect sa])).timers.length) = (some [], some [cfgC.genKey 1], 1) := by decide
+
+end clear
 
 end Ldlm.Props.C06
